@@ -43,6 +43,9 @@ type ProgOpts struct {
 	DoWildcards bool
 	// Mix adds columns of sort "mix", whose domain holds hash-equal constants of different kinds
 	Mix bool
+	// DoFilters: a third of the aggregating rules get 1-2 negated atoms / inequalities (and nothing else) behind
+	// their positive atoms
+	DoFilters bool
 	// MoreNegation: 2-4 extra literals per rule, most of them negated atoms (several negated atoms per body)
 	MoreNegation bool
 }
@@ -510,6 +513,32 @@ func randDoRule(r *rand.Rand, o ProgOpts, p ProgramV, head PredSig, aggPreds map
 	for i := 0; i < npos; i++ {
 		body = append(body, c.posAtom(lower[r.Intn(len(lower))]))
 	}
+	if o.DoFilters && r.Intn(3) == 0 {
+		// filters only: negated atoms over lower predicates and inequalities with a constant
+		nf := 1 + r.Intn(2)
+		for i := 0; i < nf; i++ {
+			if r.Intn(3) > 0 {
+				q := lower[r.Intn(len(lower))]
+				l := LitV{K: "neg", Pred: q.Name}
+				for _, s := range q.Sorts {
+					l.Args = append(l.Args, c.boundOrConst(s, 25))
+				}
+				body = append(body, l)
+			} else {
+				ss := []string{"num", "name", "str"}
+				s := ss[r.Intn(len(ss))]
+				if len(c.vars[s]) == 0 {
+					continue
+				}
+				a := VarT(c.vars[s][r.Intn(len(c.vars[s]))])
+				b := c.constOf(s)
+				body = append(body, LitV{K: "ineq", L: &a, R: &b})
+			}
+		}
+		o.Compare = false
+		c.vars["list"] = nil
+		c.vars["numNoExtras"] = []string{"x"}
+	}
 	if o.Compare && len(c.vars["num"]) > 0 && r.Intn(3) == 0 {
 		a := VarT(c.vars["num"][r.Intn(len(c.vars["num"]))])
 		body = append(body, LitV{K: "atom", Pred: ":le", Args: []TermV{a, ConstT(Num(int64(r.Intn(6))))}})
@@ -527,7 +556,7 @@ func randDoRule(r *rand.Rand, o ProgOpts, p ProgramV, head PredSig, aggPreds map
 		}
 		c.vars["num"] = append([]string{e, e}, c.vars["num"]...)
 	}
-	if len(c.vars["num"]) > 0 && r.Intn(3) == 0 {
+	if len(c.vars["num"]) > 0 && len(c.vars["numNoExtras"]) == 0 && r.Intn(3) == 0 {
 		// a variable that only an equality defines, in either orientation; it can become a group key or a reducer argument
 		x1 := c.vars["num"][r.Intn(len(c.vars["num"]))]
 		z := c.fresh("num")
